@@ -169,6 +169,8 @@ def gen_ops(rng, world, n_ev, max_ops=25, allow_faults=True):
             ops.append(op_eval())
         elif r < 0.93:
             ops.append(op_get())
+        elif r < 0.935:
+            ops.append({'op': 'recompile'})     # build_code() once more
         elif r < 0.945:
             # checkpoint: the same Model object is saved and re-loaded from
             # the file; evaluators created before keep being used
@@ -252,6 +254,8 @@ def gen_case(seed, tier='quick'):
              # how the model under test came to be: the statement speaks of
              # "a model", whatever its provenance
              'decoy': rng.random() < 0.25,
+             # build_code() only after the first input changes
+             'late_compile': rng.random() < 0.1,
              'provenance': rng.choice(
                  ['compiled'] * 5 + ['extracted'] * 2 + ['restored'] * 2 +
                  ['restored+extracted', 'reused-object', 'reused-object'])}
@@ -362,7 +366,12 @@ class History:
             if knobs.get('decoy'):
                 worlds.run_decoy(world, UserFuncs(None).namespace())
                 self.bump('probe:decoy_model_first')
-            model = worlds.world_model(world, stale=True)
+            late = bool(knobs.get('late_compile')) and \
+                knobs.get('provenance', 'compiled') == 'compiled'
+            model = worlds.world_model(world, stale=True,
+                                       build_code=not late)
+            if late:
+                self.bump('probe:inputs_set_before_build_code')
             model = self.provenance(model, knobs.get('provenance', 'compiled'))
             if self.viol is not None:
                 return self
@@ -389,6 +398,15 @@ class History:
                     self.bump('fault:clock_jump')
                     self.bump('faults_fired')
                     self.log.append([seq, 'clock_jump', op['delta']])
+                    continue
+                if late and kind != 'set':
+                    model.build_code()
+                    late = False
+                if kind == 'recompile':
+                    out = outcome_of(model.build_code)
+                    self.bump('probe:build_code_called_again')
+                    self.log.append([seq, 'recompile', out[0]])
+                    self.sig.append('b')
                     continue
                 if kind == 'persist':
                     self.do_persist(seq, op, model)
@@ -615,7 +633,7 @@ def _run_case(case):
     stats, log = h.stats, h.log
     # oracle 4: name/address equivalence (fault-free histories only)
     has_fault = any(o.get('fault') or o['op'] in ('clock_jump', 'persist',
-                                                   'checkpoint')
+                                                   'checkpoint', 'recompile')
                     for o in case['ops']) or \
         case['knobs'].get('fail_on') is not None
     if viol is None and case['world']['names'] and not has_fault and any(
